@@ -59,3 +59,20 @@ func runSmokeTx(c *vk.Ctx) {
 	fmt.Println("block with 3 txs in", time.Since(t0), "apphash", fmt.Sprintf("%X", res.AppHash)[:16])
 	c.Eval(1)
 }
+
+func runDbg19(c *vk.Ctx) {
+	ch := chain.New(c19Options())
+	defer ch.Close()
+	fmt.Println("assets at start", ch.App.SuperfluidKeeper.GetAllSuperfluidAssets(ch.Ctx))
+	g := &c19Gen{ch: ch, r: vk.NewRng(7)}
+	for b := 0; b < 4; b++ {
+		txs, _ := g.setupBlock(b)
+		ch.NextBlock(5*time.Second, txs...)
+	}
+	for k := 0; k < 5; k++ {
+		ch.NextBlock(time.Hour)
+		fmt.Println("mult", ch.App.SuperfluidKeeper.GetOsmoEquivalentMultiplier(ch.Ctx, "gamm/pool/1"), "assets", ch.App.SuperfluidKeeper.GetAllSuperfluidAssets(ch.Ctx), "epochid", ch.App.SuperfluidKeeper.GetEpochIdentifier(ch.Ctx))
+		ei := ch.App.EpochsKeeper.GetEpochInfo(ch.Ctx, "week")
+		fmt.Println("week epoch", ei.CurrentEpoch, "hook err:", ch.App.SuperfluidKeeper.Hooks().AfterEpochEnd(ch.Fork(), "week", ei.CurrentEpoch))
+	}
+}
